@@ -123,7 +123,16 @@ func (d *ProxyDataset) StreamEntitiesRaw(
 	if cont == nil {
 		return "", nil
 	}
-	return cont.Properties["token"].(string), nil
+	return continuationToken(cont)
+}
+
+// continuationToken reads the token of a remote continuation element; a missing or non-string token is an error
+func continuationToken(cont *Entity) (string, error) {
+	token, ok := cont.Properties["token"].(string)
+	if !ok {
+		return "", errors.New("continuation token missing or not a string in remote response")
+	}
+	return token, nil
 }
 
 func (d *ProxyDataset) newHttpContext() (context.Context, context.CancelFunc) {
@@ -191,7 +200,7 @@ func (d *ProxyDataset) StreamEntities(from string, limit int, f func(*Entity) er
 	if cont == nil {
 		return "", nil
 	}
-	return cont.Properties["token"].(string), nil
+	return continuationToken(cont)
 
 }
 
@@ -267,7 +276,7 @@ func (d *ProxyDataset) StreamChangesRaw(
 	if cont == nil {
 		return "", nil
 	}
-	return cont.Properties["token"].(string), nil
+	return continuationToken(cont)
 }
 
 // StreamChangesRaw stream through the dataset's changes and call `f` for each entity.
@@ -331,7 +340,7 @@ func (d *ProxyDataset) StreamChanges(since string, limit int, latestOnly bool, r
 	if cont == nil {
 		return "", nil
 	}
-	return cont.Properties["token"].(string), nil
+	return continuationToken(cont)
 
 }
 
